@@ -16,8 +16,10 @@ import (
 	"github.com/google/gce-tcb-verifier/sign/nonprod"
 )
 
-// T0 is the fixed "now" of the fixtures (after 2 Aug 2024, so provenance is demanded).
-var T0 = time.Date(2025, time.March, 1, 12, 0, 0, 0, time.UTC)
+// T0 is the fixed "now" of the fixtures: after 2 Aug 2024 (so provenance is demanded) and far from
+// the wall clock, so that only the verification time a caller names can make a fixture certificate
+// valid - code that falls back to the wall clock rejects everything.
+var T0 = time.Date(2040, time.March, 1, 12, 0, 0, 0, time.UTC)
 
 // Authority is an in-memory signer + CA created with the repository's nonprod signer.
 type Authority struct {
